@@ -365,3 +365,30 @@ func sortedKeys[V any](m map[string]V) []string {
 	sort.Strings(out)
 	return out
 }
+
+// tplRangeIndexRule applies the "range body must use its element" rule to all
+// templates under the given repo-relative directories.
+func tplRangeIndexRule(c *an.Ctx, rule string, dirs ...string) {
+	n := 0
+	for _, d := range dirs {
+		for _, file := range c.TplDir(d) {
+			t, err := c.TplFile(file)
+			if err != nil {
+				c.Failf(rule, file, 0, "template does not parse: %v", err)
+				continue
+			}
+			n++
+			hits := an.RangeConstIndexHits(t)
+			if len(hits) == 0 {
+				continue
+			}
+			var where []string
+			for _, h := range hits {
+				where = append(where, fmt.Sprintf("`%s` inside range %s", h.Node.String(), h.Path))
+			}
+			c.Failf(rule, file+"#range-element", 0, "a range body indexes the very collection it iterates with a constant (%s): every element is rendered like that fixed one", strings.Join(where, "; "))
+		}
+	}
+	c.Okf(rule, "templates#range-element", "%d templates: no range body replaces its element by a constant index into the ranged collection", n)
+	c.Floor(rule, n, 10, "templates parsed")
+}
